@@ -2,6 +2,7 @@ use crate::{Disclosure, DisclosurePath, Error, HashAlgorithm};
 use base64::Engine;
 use rand::{distributions::Alphanumeric, Rng};
 use serde_json::Value;
+use std::collections::HashSet;
 
 #[allow(dead_code)]
 pub(crate) enum JWTPart {
@@ -63,6 +64,12 @@ pub(crate) fn restore_disclosures(
         pending.push(decoded_disclosure);
     }
 
+    let mut seen_digests = HashSet::new();
+    check_digests(claims, &mut seen_digests)?;
+    for disclosure in &pending {
+        check_digests(disclosure.value(), &mut seen_digests)?;
+    }
+
     // a nested disclosure can only be placed after the claim that encloses it
     while !pending.is_empty() {
         let mut unplaced = Vec::new();
@@ -77,6 +84,51 @@ pub(crate) fn restore_disclosures(
         pending = unplaced;
     }
 
+    Ok(())
+}
+
+fn check_digests(claims: &Value, seen: &mut HashSet<String>) -> Result<(), Error> {
+    fn note(seen: &mut HashSet<String>, digest: &str) -> Result<(), Error> {
+        if seen.insert(digest.to_string()) {
+            Ok(())
+        } else {
+            Err(Error::SDJWTRejected(format!(
+                "digest {} embedded more than once",
+                digest
+            )))
+        }
+    }
+    match claims {
+        Value::Object(map) => {
+            if let Some(sd) = map.get("_sd") {
+                let sd_array = sd.as_array().ok_or_else(|| {
+                    Error::SDJWTRejected("_sd element must be array".to_string())
+                })?;
+                for digest in sd_array.iter().filter_map(Value::as_str) {
+                    note(seen, digest)?;
+                }
+            }
+            for value in map.values() {
+                check_digests(value, seen)?;
+            }
+        }
+        Value::Array(array) => {
+            for item in array {
+                if let Some(placeholder) = item.as_object().and_then(|o| o.get("...")) {
+                    if item.as_object().map_or(0, |o| o.len()) != 1 {
+                        return Err(Error::SDJWTRejected(
+                            ("... key must be only key in object").to_string(),
+                        ));
+                    }
+                    if let Some(digest) = placeholder.as_str() {
+                        note(seen, digest)?;
+                    }
+                }
+                check_digests(item, seen)?;
+            }
+        }
+        _ => {}
+    }
     Ok(())
 }
 
